@@ -14,13 +14,13 @@ type Region struct {
 }
 
 type Ref struct {
-	sc   *Schema
-	g    *Gen
-	Sum  func(alg string, frame *Bytes) *Term // checksum oracle (driver supplied)
-	Nums []Region                             // every multi-byte integer rendering, at any depth (absolute offsets)
-	Leaves []Region                           // every primitive rendering, at any depth (absolute offsets)
-	base *Term
-	path string
+	sc     *Schema
+	g      *Gen
+	Sum    func(alg string, frame *Bytes) *Term // checksum oracle (driver supplied)
+	Nums   []Region                             // every multi-byte integer rendering, at any depth (absolute offsets)
+	Leaves []Region                             // every primitive rendering, at any depth (absolute offsets)
+	base   *Term
+	path   string
 }
 
 func (r *Ref) leaf(name, kind string, start, end *Term) {
